@@ -195,6 +195,28 @@ def check_exports(circuit, st, viol, witness, fkey=None, render=False):
             continue
         st["circuitikz_checked"] = st.get("circuitikz_checked", 0) + 1
         check_circuitikz(circuit, src, running, hide, bad, what)
+    # custom labels: a caller-supplied dict overrides the names of SOME elements; it is re-used for a second diagram with
+    # running identifiers - the other elements must then follow the running identifiers, and the dict must stay as it was
+    tops = circuit.get_elements(recursive=True)
+    if len(tops) >= 2 and not fkey:
+        custom = {e: f"X{i}" for i, e in enumerate(tops[: max(1, len(tops) // 2)])}
+        snapshot = dict(custom)
+        try:
+            for running in (False, True):
+                src = circuit.to_circuitikz(custom_labels=custom, running=running)
+                ids = circuit.generate_element_identifiers(running=running)
+                exp = sorted(custom[e] if e in snapshot else f"{e.get_symbol()}_{{\\rm {e.get_label() or ids[e]}}}" for e in tops)
+                got = sorted(l for _, l in COMP.findall(src))
+                st["custom_label_diagrams"] = st.get("custom_label_diagrams", 0) + 1
+                if got != exp:
+                    bad("C20/circuitikz-custom-labels", f"to_circuitikz(custom_labels=<{len(snapshot)} of {len(tops)} elements>, running={running}): labels {got[:8]} expected {exp[:8]}")
+                    break
+            circuit.to_drawing(custom_labels=custom)
+            if custom != snapshot or len(custom) != len(snapshot):
+                bad("C20/custom-labels-dict-modified", f"the caller's custom_labels dictionary grew from {len(snapshot)} to {len(custom)} entries")
+        except Exception as e:
+            o = monitors.exception_origin(e)
+            bad(f"C20/custom-labels-raised:{type(e).__name__}@{o['func']}", f"{type(e).__name__}: {str(e)[:200]}")
     # drawing
     for kw in ({}, {"running": True}, {"hide_labels": True}):
         try:
@@ -346,7 +368,7 @@ def run_case(case):
 
 def finalize(agg):
     inc = []
-    for need in ("sympy_checked", "circuitikz_checked", "drawings", "stacks", "drawings_rendered"):
+    for need in ("sympy_checked", "circuitikz_checked", "drawings", "stacks", "drawings_rendered", "custom_label_diagrams"):
         if agg["stats"].get(need, 0) == 0:
             inc.append(f"'{need}' never observed")
     return {"viol": [], "inconclusive": inc}
